@@ -15,7 +15,8 @@ import numpy as np
 import requests
 
 _LAYERS = {}
-_STACK = []          # originals of the messages currently being sent (synchronous delivery)
+_STACK = []
+_STACK_SEEN = []          # originals of the messages currently being sent (synchronous delivery)
 OBSERVER = None      # set by the check: gets (kind, original, decoded/exception, context)
 _PATCHES = []
 
@@ -37,11 +38,13 @@ class _Resp:
         self.status_code = status
 
 
-def fake_post(url, headers=None, json=None, timeout=None, **kw):
+def fake_post(url, headers=None, json=None, timeout=None, data=None, **kw):
     from pydcop.infrastructure.communication import MPCHttpHandler
     original = _STACK[-1] if _STACK else None
+    if _STACK_SEEN:
+        _STACK_SEEN[-1] = True           # the POST was attempted: errors are reported here
     try:
-        prepared = requests.Request("POST", url, headers=headers, json=json).prepare()
+        prepared = requests.Request("POST", url, headers=headers, json=json, data=data).prepare()
     except Exception as e:
         if OBSERVER:
             OBSERVER("encode_error", original, e, headers)
@@ -111,10 +114,18 @@ def install(observer):
 
     def send_msg(layer, src_agent, dest_agent, msg, on_error=None):
         _STACK.append(msg)
+        _STACK_SEEN.append(False)
         try:
             return orig_send(layer, src_agent, dest_agent, msg, on_error)
+        except Exception as e:
+            # an exception raised by the sending code itself, before the POST is attempted
+            # (encoding done by send_msg) is an encode error too
+            if OBSERVER and not _STACK_SEEN[-1]:
+                OBSERVER("encode_error", msg, e, None)
+            raise
         finally:
             _STACK.pop()
+            _STACK_SEEN.pop()
 
     def on_post_message(layer, path, sender, dest, msg):
         if OBSERVER and _STACK:
